@@ -60,6 +60,8 @@ def run(ctx):
     for cfg in cfgs:
         fs = ctx.facts(cfg)
         ctx.guard(who, ctx, cfg, fs)
+        import wiring
+        ctx.guard(wiring.builders, ctx, cfg, fs, 'P.name-provenance', r'^(env|params::NamedArg::env|params::NamedArg::(switch|flag|req_flag|argument)|params::build_flag_parser|params::build_argument)$')
         ctx.guard(flag, ctx, cfg, fs)
         ctx.guard(argument, ctx, cfg, fs)
         ctx.guard(absent, ctx, cfg, fs)
